@@ -16,7 +16,7 @@ import (
 const DocPattern = `^(text/.*|application/(javascript|json|font-woff|xml)|.*\+(json|xml))(;.*)?$`
 
 var (
-	patterns = []string{DocPattern, DocPattern, DocPattern, `^text/plain(;.*)?$`, `.*`, `^$`, `^text/`, `json`}
+	patterns = []string{DocPattern, DocPattern, DocPattern, `^text/plain(;.*)?$`, `.*`, `^$`, `^text/`, `json`, `^text/plain$`, `charset=utf-8`}
 	ctypes   = []string{"text/html", "text/html; charset=utf-8", "text/plain", "text/plain; charset=utf-8", "application/json",
 		"application/javascript", "image/png", "application/octet-stream", "application/vnd.api+json", "application/font-woff",
 		"TEXT/HTML", "", "text/event-stream", "application/gzip", "application/xml;q", "text/css"}
@@ -36,12 +36,32 @@ var (
 )
 
 type genOpt struct {
-	bodiless bool // allow HEAD/204/304 (class D28)
-	refused  bool // allow Accept-Encoding values that list gzip with q=0
-	sniffy   bool // allow implicit writes whose first chunk sniffs differently from the body prefix (srv layer)
+	bodiless bool     // allow HEAD/204/304 (class D28)
+	refused  bool     // allow Accept-Encoding values that list gzip with q=0
+	sniffy   bool     // allow implicit writes whose first chunk sniffs differently from the body prefix (srv layer)
+	ctypes   []string // content type universe (nil: the general one)
+	patterns []string // expression universe (nil: the general one)
+	small    bool     // bodies of a few hundred bytes at most
 }
 
-func genChunks(r *hx.Rand, thorough bool) []Op {
+func (o genOpt) ct(r *hx.Rand) string {
+	if o.ctypes != nil {
+		return r.Pick(o.ctypes)
+	}
+	return r.Pick(ctypes)
+}
+
+// expressions that look at the parameters of the content type (no `(;.*)?` tail, or selecting on charset), and
+// content types that share the media type and differ in parameters, case or spacing
+var (
+	patternsParam = []string{`^text/plain$`, `^(text/plain|application/json; charset=utf-8)$`, `charset=utf-8`,
+		`^text/html; charset=utf-8$`, `^text/[a-z]+$`, `^application/json(; charset=utf-8)?$`, `^[a-z/]+$`}
+	ctypesParam = []string{"text/plain", "text/plain; charset=iso-8859-1", "text/plain; charset=utf-8", "text/plain;charset=utf-8",
+		"text/html", "text/html; charset=utf-8", "text/html; charset=UTF-8", "application/json", "application/json; charset=utf-8",
+		"application/json; charset=latin1", "TEXT/PLAIN", "text/plain ;x=1", "image/png"}
+)
+
+func genChunks(r *hx.Rand, thorough, small bool) []Op {
 	var ops []Op
 	n := 0
 	switch r.Intn(10) {
@@ -53,6 +73,9 @@ func genChunks(r *hx.Rand, thorough bool) []Op {
 		n = r.Range(2, 6)
 	}
 	big := r.Intn(40) // 0: up to 1 MiB, 1,2: up to 64 KiB
+	if small {
+		big = 3 + r.Intn(37)
+	}
 	for i := 0; i < n; i++ {
 		var o Op
 		o.Op = "w"
@@ -116,6 +139,9 @@ func totalLen(ops []Op) int {
 
 func genCase(r *hx.Rand, layer string, opt genOpt, thorough bool) In {
 	in := In{Layer: layer, Method: "GET", Pattern: r.Pick(patterns), Req: [][2]string{}}
+	if opt.patterns != nil {
+		in.Pattern = r.Pick(opt.patterns)
+	}
 	if r.Chance(1, 10) {
 		in.Method = "POST"
 	}
@@ -149,11 +175,11 @@ func genCase(r *hx.Rand, layer string, opt genOpt, thorough bool) In {
 		}
 	}
 
-	writes := genChunks(r, thorough)
+	writes := genChunks(r, thorough, opt.small)
 	total := totalLen(writes)
 	var ops []Op
 	if r.Chance(17, 20) {
-		ops = append(ops, Op{Op: r.Pick([]string{"set", "set", "add"}), K: r.Pick(ctKeys), V: r.Pick(ctypes)})
+		ops = append(ops, Op{Op: r.Pick([]string{"set", "set", "add"}), K: r.Pick(ctKeys), V: opt.ct(r)})
 	}
 	for k := r.Intn(3); k > 0; k-- {
 		i := r.Intn(len(hdrNames))
@@ -192,18 +218,23 @@ func genCase(r *hx.Rand, layer string, opt genOpt, thorough bool) In {
 		}
 		switch r.Intn(4) {
 		case 0:
-			ops = append(ops, Op{Op: "set", K: "Content-Type", V: r.Pick(ctypes)})
+			ops = append(ops, Op{Op: "set", K: "Content-Type", V: opt.ct(r)})
 		case 1: // what httputil.ReverseProxy does after relaying a 1xx: the header map is cleared and filled again
 			for _, k := range []string{"Content-Encoding", "Content-Type", "Link", "Vary"} {
 				ops = append(ops, Op{Op: "del", K: k})
 			}
-			ops = append(ops, Op{Op: "set", K: "Content-Type", V: r.Pick(ctypes)})
+			ops = append(ops, Op{Op: "set", K: "Content-Type", V: opt.ct(r)})
 		case 2:
 			ops = append(ops, Op{Op: "set", K: "Content-Encoding", V: r.Pick(encodings)})
 		}
 	}
+	// one way of flushing per script: the Flusher assertion, or http.NewResponseController (what ReverseProxy uses)
+	fl := "fl"
+	if r.Chance(1, 3) {
+		fl = "rc"
+	}
 	if r.Chance(1, 8) { // flush before anything is written
-		ops = append(ops, Op{Op: "fl"})
+		ops = append(ops, Op{Op: fl})
 	}
 	explicit := r.Chance(3, 5)
 	code := 200
@@ -230,7 +261,7 @@ func genCase(r *hx.Rand, layer string, opt genOpt, thorough bool) In {
 			}
 		}
 		if hasCE || len(first) == 0 || http.DetectContentType(first) != http.DetectContentType(all) {
-			ops = append(ops, Op{Op: "set", K: "Content-Type", V: r.Pick(ctypes)}) // last header call: nothing deletes it again
+			ops = append(ops, Op{Op: "set", K: "Content-Type", V: opt.ct(r)}) // last header call: nothing deletes it again
 		}
 	}
 	// writes, with late calls mixed in (they must not change anything that was decided)
@@ -239,7 +270,7 @@ func genCase(r *hx.Rand, layer string, opt genOpt, thorough bool) In {
 		case 0:
 			ops = append(ops, Op{Op: "wh", Code: codesBody[r.Intn(len(codesBody))]})
 		case 1:
-			ops = append(ops, Op{Op: "set", K: "Content-Type", V: r.Pick(ctypes)})
+			ops = append(ops, Op{Op: "set", K: "Content-Type", V: opt.ct(r)})
 		case 2:
 			ops = append(ops, Op{Op: "set", K: "Content-Encoding", V: r.Pick(encodings)})
 		case 3:
@@ -254,13 +285,13 @@ func genCase(r *hx.Rand, layer string, opt genOpt, thorough bool) In {
 			late()
 		}
 		if r.Chance(1, 10) && (i > 0 || explicit) {
-			ops = append(ops, Op{Op: "fl"})
+			ops = append(ops, Op{Op: fl})
 		}
 		ops = append(ops, w)
 		decided = true
 	}
 	if r.Chance(1, 8) {
-		ops = append(ops, Op{Op: "fl"})
+		ops = append(ops, Op{Op: fl})
 	}
 	if decided && r.Chance(1, 10) {
 		late()
